@@ -132,18 +132,84 @@ class Ctl:
 
 
 CTL = Ctl()
+LOCK_TYPE = type(threading.Lock())
+
+
+class GuardProxy:
+    """stands in for a guard of the instance: the request parks before taking it (action mode) and does not park while it
+    holds it (a parked holder would block every other request at the guard for real)."""
+    def __init__(self, real):
+        self.real = real
+
+    def __enter__(self):
+        tid = CTL.tid()
+        if tid is not None and CTL.mode != "off" and not CTL.atomic():
+            if CTL.mode == "action":
+                CTL._park(tid, "G")
+            CTL.tls.section = {"entry": None}
+            CTL.tls.atomic = CTL.atomic() + 1
+        self.real.acquire()
+        return self
+
+    def __exit__(self, *exc):
+        self.real.release()
+        if getattr(CTL.tls, "section", None) is not None:
+            CTL.tls.section = None
+            CTL.tls.atomic = CTL.atomic() - 1
+        return False
+
+    def acquire(self, *a, **kw):
+        return self.real.acquire(*a, **kw)
+
+    def release(self):
+        return self.real.release()
+
+    def locked(self):
+        return self.real.locked()
+
+
+def lock_flag_access(write, v):
+    """one access to session_state["lock"] by a request thread, recorded at the access itself"""
+    tid = CTL.tid()
+    if tid is None or CTL.mode == "off":
+        return
+    sec = getattr(CTL.tls, "section", None)
+    if sec is None:                                           # outside every guard: an action of its own
+        if not write:
+            CTL.visible("RL")
+        else:
+            CTL.visible("SL" if v else "CL", folded=True)
+    elif not write:
+        if sec["entry"] is None:
+            sec["entry"] = [tid, "TAS", False, False]
+            CTL.log.append(sec["entry"])
+    elif v and sec["entry"] is not None and sec["entry"][1] == "TAS":
+        sec["entry"][2] = True                                # the set half of the test-and-set
+        CTL.log.append([tid, "SL", None, True])
+    else:
+        sec["entry"] = [tid, "SL" if v else "CL", None, False]   # a write without a test under the same guard
+        CTL.log.append(sec["entry"])
 
 
 class RecDict(dict):
-    """session_state with recorded accesses to the session clock."""
+    """session_state with recorded accesses to the session clock and to the lock flag."""
     def __getitem__(self, k):
         if k == "step":
             CTL.visible("RS")
+        elif k == "lock":
+            lock_flag_access(False, None)
         return dict.__getitem__(self, k)
+
+    def get(self, k, d=None):
+        if k == "lock":
+            lock_flag_access(False, None)
+        return dict.get(self, k, d)
 
     def __setitem__(self, k, v):
         if k == "step":
             CTL.visible("WS", v)
+        elif k == "lock":
+            lock_flag_access(True, v)
         dict.__setitem__(self, k, v)
 
 
@@ -170,36 +236,21 @@ class World:
         self._instrument()
 
     def _instrument(self):
+        """Guards of the instance.  The accesses to the lock flag are recorded where they happen (`RecDict`).  Whether a test and a set of the lock flag form ONE action is not read off a method name: an
+        access is part of an atomic section exactly while a guard (a `threading.Lock` attribute of the instance) is held.
+        The scheduler parks a request before it takes a guard (pending label `G`); what the section does to the flag gives
+        the label: read [+ write True] = `TAS`, a bare write = `SL` / `CL`.  Accesses outside a guard are `RL` / `SL` / `CL`
+        actions of their own, so an `is_locked()` in front of the guard and a `lock()` inside it are two actions the
+        scheduler can separate."""
         inst = self.inst
         cls = type(inst)
-        o_is, o_lock, o_unlock = cls.is_locked, cls.lock, cls.unlock
+        self.guards = []
+        for k, v in list(vars(inst).items()):
+            if isinstance(v, LOCK_TYPE):
+                g = GuardProxy(v)
+                setattr(inst, k, g)
+                self.guards.append(k)
 
-        def is_locked():
-            CTL.visible("RL")
-            return o_is(inst)
-
-        def lock():
-            CTL.visible("SL", folded=True)
-            return o_lock(inst)
-
-        def unlock():
-            CTL.visible("CL", folded=True)
-            return o_unlock(inst)
-        inst.is_locked, inst.lock, inst.unlock = is_locked, lock, unlock
-        if self.has_try_lock:
-            o_try = cls.try_lock
-
-            def try_lock():
-                e = CTL.visible("TAS")
-                CTL.tls.atomic = CTL.atomic() + 1
-                try:
-                    r = o_try(inst)
-                    if e is not None:
-                        e[2] = bool(r)
-                    return r
-                finally:
-                    CTL.tls.atomic -= 1
-            inst.try_lock = try_lock
         runner = self.bmod.SdRunner
         self._orig_sim = runner.run_scenario_step
         orig = self._orig_sim
@@ -243,6 +294,7 @@ class World:
         from werkzeug.test import EnvironBuilder
         CTL.tls.tid = tid
         CTL.tls.atomic = 0
+        CTL.tls.section = None
         res = {"status": None, "times": [], "msgs": 0, "body": "", "chunks": 0, "closed_early": False, "exc": None}
         out[tid] = res
         try:
@@ -341,6 +393,9 @@ class Tracer:
                     self.codes[c] = name + "." + c.co_name
         self.codes[bmod.bptk.run_step.__code__] = "bptk.run_step"
         self.codes[bmod.bptk.progress.__code__] = "bptk.progress"
+        for fn in ("try_lock", "is_locked", "lock", "unlock"):          # every line of the lock functions as well
+            if hasattr(bmod.bptk, fn):
+                self.codes[getattr(bmod.bptk, fn).__code__] = "bptk." + fn
         for code, name in self.codes.items():
             for _, _, ln in code.co_lines():
                 if ln is not None:
@@ -515,6 +570,9 @@ def reference(scn, rec):
     stepping = {}            # tid -> inside run_step (between RS of run_step and WS)
     overlap_multi = overlap_p = False
     stolen = None            # a request that never acquired cleared the flag while another one holds the lock
+    acquirers = {t for t, l, i, f in rec["log"] if l == "SL" or (l == "TAS" and i)}
+    stepped = {t for t, l, i, f in rec["log"] if l in ("SIM", "WS")}
+    unlocked_p = any(k == "p" and t in stepped and t not in acquirers for t, k in enumerate(kinds))
     for tid, lab, info, folded in rec["log"]:
         if folded and lab != "CL":
             continue
@@ -542,13 +600,13 @@ def reference(scn, rec):
             if lab == "SIM":
                 busy = [t for t, v in stepping.items() if v and t != tid]
                 if busy:
-                    key = "run-step-without-lock" if (kinds[tid] == "p" or any(kinds[b] == "p" for b in busy)) else "lock-check-then-act"
+                    key = "run-step-without-lock" if any(kinds[b] == "p" and b not in acquirers for b in busy + [tid]) else "lock-check-then-act"
                     out.append((key, f"requests {busy + [tid]} are inside run_step at the same time"))
                 stepping[tid] = True
     produced = [int(round(info)) - 1 for tid, lab, info, folded in rec["log"] if lab == "WS"]
     if len(set(produced)) != len(produced):
         dup = sorted({p for p in produced if produced.count(p) > 1})
-        key = "run-step-without-lock" if any(k == "p" for k in kinds) and not any(k == "lock-check-then-act" for k, _ in out) else "lock-check-then-act"
+        key = "run-step-without-lock" if unlocked_p and not any(k == "lock-check-then-act" for k, _ in out) else "lock-check-then-act"
         out.append((key, f"simulation time(s) {dup} produced twice (write order {produced})"))
     total = 0
     for i, o in enumerate(rec["out"]):
@@ -651,7 +709,7 @@ def _about_to_acquire(p, line):
     if line:
         txt = TRACER.src.get(p, "") if isinstance(p, tuple) else ""
         return "try_lock(" in txt or ".lock()" in txt
-    return p in ("TAS", "SL")
+    return p in ("TAS", "SL", "G")
 
 
 def sandwich_chooser(j, line=False):
@@ -716,6 +774,45 @@ def sandwiches(world, rng, line, per_triple):
                     yield scn, execute(world, scn, "line" if line else "action", chooser=sandwich_chooser(j, line)), span[a]
 
 
+# ------------------------------------------------------------------------------------------- direct search (fallback)
+def direct_search(world):
+    """Used when a traced program differs from the model's: for every ordered pair of request kinds, request 0 runs k source
+    lines (every k up to its first write of the session clock), request 1 runs until it is inside its first simulation call
+    (or has ended, e.g. refused), request 0 runs to its end, request 1 ends — on the real handlers at line granularity
+    (handlers, stream generator, run_step, progress, try_lock/is_locked/lock/unlock)."""
+    def wrote(tid, lab):
+        return any(t == tid and l == lab for t, l, i, f in CTL.log)
+
+    for a in SANDWICH_KINDS:
+        for b in SANDWICH_KINDS:
+            scn = Scn(1, [a, b])
+            marks = []
+
+            def serial(enabled, pending, current, k):
+                marks.append(wrote(0, "WS"))
+                return 0 if 0 in enabled else enabled[0]
+            execute(world, scn, "line", chooser=serial)
+            limit = next((k for k, m in enumerate(marks) if m), len(marks))
+            for k0 in range(1, limit + 1):
+                st = {"phase": 0}
+
+                def chooser(enabled, pending, current, k, k0=k0, st=st):
+                    if st["phase"] == 0:
+                        if k < k0 and 0 in enabled:
+                            return 0
+                        st["phase"] = 1
+                    if st["phase"] == 1:
+                        if 1 in enabled and not wrote(1, "SIM"):
+                            return 1
+                        st["phase"] = 2
+                    if st["phase"] == 2:
+                        if 0 in enabled:
+                            return 0
+                        st["phase"] = 3
+                    return current if current in enabled else enabled[0]
+                yield scn, execute(world, scn, "line", chooser=chooser)
+
+
 # ------------------------------------------------------------------------------------------- thread programs by tracing
 class TraceDict(dict):
     """session_state of the stub: every access to the lock flag and to the session clock is recorded."""
@@ -755,7 +852,7 @@ class StubInstance:
         self._b = world.bmod.bptk
         self._guards = []
         for k, v in vars(world.inst).items():
-            if isinstance(v, type(_th.Lock())):
+            if isinstance(v, (LOCK_TYPE, GuardProxy)):
                 g = _th.Lock()
                 setattr(self, k, g)
                 self._guards.append(g)
@@ -1168,11 +1265,22 @@ def _run(chk, world):
         "begin-session/end-session are not step-advancing requests and are outside the statement's quantifier (schedules of stepping requests); what a begin-session/end-session racing with a stepping request does is probed and reported in notes.session_race (informational)",
     ]
     two, extra, three = scenarios(chk)
+    cases = [(scn, rec, "action") for scn, rec in facts["_runs"]]                      # (scn, rec, mode)
+    dist = {}
+    differing = [o["name"] for o in obls if not o["ok"]] + [k for k in FACTS if stub_facts.get(k) is not None and stub_facts[k] != facts[k]]
+    if differing:
+        # a traced program is not the model's: search the real handlers directly for a schedule violating the statement
+        TRACER.setup()
+        nds = nviol = 0
+        for scn, rec in direct_search(world):
+            cases.append((scn, rec, "line"))
+            nds += 1
+            nviol += 1 if reference(scn, rec) else 0
+        dist["direct search (traced program differs): 9 ordered kind pairs x a switch at every line of request 0 before its first clock write, request 1 up to its first simulation call, back"] = nds
+        chk.notes["direct_search"] = {"because": differing, "runs": nds, "violating": nviol}
     bound2 = 3 if chk.quick else 4
     bound3 = 2 if chk.quick else 3
     budget = 1500 if chk.quick else 40000
-    cases = [(scn, rec, "action") for scn, rec in facts["_runs"]]                      # (scn, rec, mode)
-    dist = {}
     t0 = _t.time()
     deadline = t0 + (55 if chk.quick else 600)
     for group, bound in ((two, bound2), (extra, bound2), (three, bound3)):
